@@ -423,18 +423,36 @@ theorem reply_good (s : Srv) (log : List Msg) (reg name : Text) (o : Fetch.Outco
                 right
                 exact ⟨by rw [hregmap, hrw], p, hp, hfetched_sub _ hfw⟩
 
+/-- didClose removes the document and nothing else: the tasks it started keep running, and every other document keeps
+    what it is owed -/
+theorem close_good (s : Srv) (log : List Msg) (uri : Text) (h : Good s log) : Good (Server.close s uri) log where
+  cfg := h.cfg
+  store := h.store
+  inv := h.inv
+  uniq := by
+    unfold UniqueDocs Server.close
+    simp only
+    exact List.Nodup.sublist (List.Sublist.map _ List.filter_sublist) h.uniq
+  tasksOk := h.tasksOk
+  docsOk := by
+    intro d hd reg hreg
+    have hd' : d ∈ s.docs := (List.mem_filter.mp hd).1
+    exact h.docsOk d hd' reg hreg
+
 /-! ### every schedule -/
 
 /-- events as the code can receive them -/
 def wfEv : Ev → Prop
   | .edit _ _ => True
   | .reply _ _ o => wfOutcome o
+  | .close _ => True
 
 theorem step_good (s : Srv) (log : List Msg) (e : Ev) (hw : wfEv e) (h : Good s log) :
     Good (step s e).1 (log ++ (step s e).2) := by
   cases e with
   | edit uri pkgs => exact edit_good s log uri pkgs h
   | reply reg name o => exact reply_good s log reg name o hw h
+  | close uri => simpa [step] using close_good s log uri h
 
 theorem run_good (evs : List Ev) : ∀ (s : Srv) (log : List Msg), (∀ e ∈ evs, wfEv e) → Good s log →
     Good (run s evs).1 (log ++ (run s evs).2) := by
@@ -448,9 +466,17 @@ theorem run_good (evs : List Ev) : ∀ (s : Srv) (log : List Msg), (∀ e ∈ ev
     rw [← List.append_assoc]
     exact h2
 
-/-- a document that was edited stays open (the schedules of C13 contain no close) -/
-theorem step_keeps_doc (s : Srv) (e : Ev) (uri : Text) (h : ∃ d ∈ s.docs, d.1 = uri) : ∃ d ∈ (step s e).1.docs, d.1 = uri := by
+/-- a document stays open as long as it is not closed -/
+theorem step_keeps_doc (s : Srv) (e : Ev) (uri : Text) (hne : e ≠ .close uri) (h : ∃ d ∈ s.docs, d.1 = uri) :
+    ∃ d ∈ (step s e).1.docs, d.1 = uri := by
   cases e with
+  | close u =>
+    obtain ⟨d, hd, hu⟩ := h
+    refine ⟨d, ?_, hu⟩
+    simp only [step, Server.close]
+    refine List.mem_filter.mpr ⟨hd, ?_⟩
+    simp only [bne_iff_ne, ne_eq]
+    intro e; apply hne; rw [← e, hu]
   | reply reg name o => simp only [step]; rw [reply_docs]; exact h
   | edit uri' pkgs =>
     have hdocs : (Server.edit s uri' pkgs).1.docs = setDoc s.docs uri' (if (Detect.detect uri').isSome then pkgs else []) := by
@@ -494,31 +520,35 @@ theorem edit_opens_doc (s : Srv) (uri : Text) (pkgs : List PkgInfo) : ∃ d ∈ 
           · unfold spawnTask; simp only; split <;> rfl
   rw [hdocs]; exact ⟨_, List.mem_cons_self, rfl⟩
 
-theorem run_keeps_doc (evs : List Ev) (s : Srv) (uri : Text) (h : ∃ d ∈ s.docs, d.1 = uri) : ∃ d ∈ (run s evs).1.docs, d.1 = uri := by
+theorem run_keeps_doc (evs : List Ev) (s : Srv) (uri : Text) (hnc : Ev.close uri ∉ evs) (h : ∃ d ∈ s.docs, d.1 = uri) :
+    ∃ d ∈ (run s evs).1.docs, d.1 = uri := by
   induction evs generalizing s with
   | nil => simpa [run] using h
-  | cons e es ih => simp only [run]; exact ih _ (step_keeps_doc s e uri h)
+  | cons e es ih =>
+    simp only [run]
+    exact ih _ (fun hm => hnc (List.mem_cons_of_mem _ hm))
+      (step_keeps_doc s e uri (fun he => hnc (by rw [he]; exact List.mem_cons_self)) h)
 
-theorem run_opens_doc (evs : List Ev) (s : Srv) (uri : Text) (pk : List PkgInfo) (h : Ev.edit uri pk ∈ evs) :
-    ∃ d ∈ (run s evs).1.docs, d.1 = uri := by
+theorem run_opens_doc (evs : List Ev) (s : Srv) (uri : Text) (pk : List PkgInfo) (hnc : Ev.close uri ∉ evs)
+    (h : Ev.edit uri pk ∈ evs) : ∃ d ∈ (run s evs).1.docs, d.1 = uri := by
   induction evs generalizing s with
   | nil => cases h
   | cons e es ih =>
     simp only [run]
+    have hnc' : Ev.close uri ∉ es := fun hm => hnc (List.mem_cons_of_mem _ hm)
     rcases List.mem_cons.mp h with rfl | h'
-    · exact run_keeps_doc es _ uri (by simpa [step] using edit_opens_doc s uri pk)
-    · exact ih _ h'
+    · exact run_keeps_doc es _ uri hnc' (by simpa [step] using edit_opens_doc s uri pk)
+    · exact ih _ hnc' h'
 
-/-- **C13, in full**: on EVERY schedule of edits and registry replies (any interleaving, any number of documents,
-    any outcomes) that ends with no fetch in flight, the diagnostics last published for each edited document are
-    exactly the diagnosis of its latest text against the final cache. -/
+/-- **C13, in full**: on EVERY schedule of edits, registry replies and didClose (any interleaving, any number of
+    documents, any outcomes) that ends with no fetch in flight, the diagnostics last published for each document that is
+    open at the end are exactly the diagnosis of its latest text against the final cache. -/
 theorem c13_full_holds (evs : List Ev) (hw : ∀ e ∈ evs, wfEv e) (uri : Text) (reg : String) (hdet : Detect.detect uri = some reg)
-    (hq : Quiescent (run {} evs).1) (hed : ∃ pk, Ev.edit uri pk ∈ evs) :
+    (hq : Quiescent (run {} evs).1) (hopen : ∃ d ∈ (run {} evs).1.docs, d.1 = uri) :
     lastPub uri (run {} evs).2 = wanted (run {} evs).1 uri reg := by
   have hg := run_good evs {} [] hw good_init
   simp only [List.nil_append] at hg
-  obtain ⟨pk, hpk⟩ := hed
-  obtain ⟨d, hd, hdu⟩ := run_opens_doc evs {} uri pk hpk
+  obtain ⟨d, hd, hdu⟩ := hopen
   obtain ⟨s0, h1, h2, h3, h4⟩ := hg.docsOk d hd reg (by rw [hdu]; exact hdet)
   have hno : (run {} evs).1.tasks = [] := by
     unfold Quiescent at hq; simpa using hq
@@ -536,7 +566,14 @@ theorem c13_full_holds (evs : List Ev) (hw : ∀ e ∈ evs, wfEv e) (uri : Text)
 /-- the full statement as first written (kept in Props/C13.lean) follows for schedules the code can receive -/
 theorem c13_full_wf (evs : List Ev) (hw : ∀ e ∈ evs, wfEv e) (uri : Text) (reg : String) (hdet : Detect.detect uri = some reg) :
     let r := run {} evs
-    Quiescent r.1 → (∃ pk, Ev.edit uri pk ∈ evs) → lastPub uri r.2 = wanted r.1 uri reg :=
-  fun hq hed => c13_full_holds evs hw uri reg hdet hq hed
+    Quiescent r.1 → (∃ d ∈ r.1.docs, d.1 = uri) → lastPub uri r.2 = wanted r.1 uri reg :=
+  fun hq hopen => c13_full_holds evs hw uri reg hdet hq hopen
+
+/-- in particular every document that was edited and never closed -/
+theorem c13_full_edited (evs : List Ev) (hw : ∀ e ∈ evs, wfEv e) (uri : Text) (reg : String) (hdet : Detect.detect uri = some reg)
+    (hq : Quiescent (run {} evs).1) (hed : ∃ pk, Ev.edit uri pk ∈ evs) (hnc : Ev.close uri ∉ evs) :
+    lastPub uri (run {} evs).2 = wanted (run {} evs).1 uri reg := by
+  obtain ⟨pk, hpk⟩ := hed
+  exact c13_full_holds evs hw uri reg hdet hq (run_opens_doc evs {} uri pk hnc hpk)
 
 end Vlsp.C13
